@@ -101,6 +101,12 @@ func (lc *LogicContext) makeSetupUri(uri string, aControl string) string {
 
 func ParseSdp2LogicContext(b []byte) (LogicContext, error) {
 	var ret LogicContext
+	// the zero value of base.AvPacketPt is a valid payload type (G711U), so a missing
+	// media section must be marked explicitly
+	ret.audioPayloadTypeBase = base.AvPacketPtUnknown
+	ret.videoPayloadTypeBase = base.AvPacketPtUnknown
+	ret.audioPayloadTypeOrigin = -1
+	ret.videoPayloadTypeOrigin = -1
 
 	c, err := ParseSdp2RawContext(b)
 	if err != nil {
